@@ -34,8 +34,13 @@ RECIPES = {
     "chain-rev": {"kind": "chain", "args": {"n_internal": 2, "reverse_exchange": True, "direction": "min",
                                            "objective": "R1", "rules": {"R0": "g1 or g2", "EX_out": "g2"}}},
     "toy-group": {"kind": "toy", "args": {"group": True}},
+    # a model that already carries a fixed-objective constraint and a knocked-out gene when the block is entered
     "toy-fixed": {"kind": "toy", "pre": [{"op": "fix_objective", "k": "fix_objective_as_constraint", "fraction": 0.5},
                                          {"op": "g_knock_out", "k": "gene.knock_out", "g": "g3"}]},
+    # a model that already carries a user variable and a user constraint over two reactions
+    "toy-user": {"kind": "toy", "pre": [{"op": "add_cons_vars", "k": "add_cons_vars", "what": [
+        {"t": "var", "name": "uv1", "lb": 0.0, "ub": 5.0},
+        {"t": "cons", "name": "uc1", "expr": {"R1": 1.0, "DM_c_c": -2.0, "var:uv1": 1.0}, "lb": 0.0, "ub": 3.0}]}]},
 }
 
 
@@ -116,7 +121,7 @@ def _cases(tier, seed):
     """-> list of (family, case); deterministic for (tier, seed)"""
     rng = random.Random(seed * 7919 + (0 if tier == "quick" else 1))
     cases = []
-    single_models = ["toy", "toy-min2", "chain", "chain-rev", "toy-group", "toy-fixed"]
+    single_models = ["toy", "toy-min2", "chain", "chain-rev", "toy-group", "toy-fixed", "toy-user"]
     rnd_recipes = [_random_recipe(rng) for _ in range(3 if tier == "quick" else 8)]
     # exhaustive depth 1, full alphabet, all shapes
     for rec in [RECIPES[n] for n in single_models] + rnd_recipes:
@@ -124,16 +129,21 @@ def _cases(tier, seed):
         for a in full:
             for p in single_shapes(a):
                 cases.append(("depth1", {"model": rec, "prog": p}))
-    # exhaustive depth 2
-    pair_models = ["toy", "chain"] if tier == "quick" else ["toy", "chain", "toy-min2"]
-    for n in pair_models:
+    # exhaustive depth 2: (model, alphabet, shapes)
+    if tier == "quick":
+        plan = [("toy", "core", range(8)), ("chain", "core", (0, 3, 6))]
+    else:
+        plan = [("toy", "full", range(8)), ("chain", "full", range(8)), ("toy-min2", "core", range(8)),
+                ("toy-user", "core", range(8)), ("toy-fixed", "core", (0, 3, 4, 6))]
+    for n, which, shapes in plan:
         rec = RECIPES[n]
         full, core = _alphabet(rec)
-        left = core if tier == "quick" else full
+        left = core if which == "core" else full
         for a in left:
             for b in left:
-                for p in pair_shapes(a, b):
-                    cases.append(("depth2", {"model": rec, "prog": p}))
+                ps = pair_shapes(a, b)
+                for i in shapes:
+                    cases.append(("depth2", {"model": rec, "prog": ps[i]}))
     # exhaustive depth 3 over a reduced alphabet (thorough)
     if tier != "quick":
         rec = RECIPES["toy"]
@@ -145,8 +155,8 @@ def _cases(tier, seed):
                     for p in triple_shapes(a, b, c):
                         cases.append(("depth3", {"model": rec, "prog": p}))
     # seeded random histories
-    n_random = 6000 if tier == "quick" else 120000
-    pool = [RECIPES[n] for n in ("toy", "toy-min2", "chain", "chain-rev", "toy-fixed")] + rnd_recipes
+    n_random = 5000 if tier == "quick" else 100000
+    pool = [RECIPES[n] for n in ("toy", "toy-min2", "chain", "chain-rev", "toy-fixed", "toy-user")] + rnd_recipes
     for _ in range(n_random):
         rec = rng.choice(pool)
         full, core = _alphabet(rec)
@@ -155,14 +165,13 @@ def _cases(tier, seed):
 
 
 REDUCED_KINDS = [
-    "bounds", "lower_bound", "reaction.knock_out", "gene.knock_out", "objective:dict", "objective:expr",
+    "bounds", "lower_bound", "gene.knock_out", "objective:dict", "objective:expr",
     "objective_coefficient", "objective_direction", "add_metabolites:combine:existing", "add_metabolites:combine:new-met",
     "add_metabolites:replace:existing", "subtract_metabolites:combine:to-zero", "imul:negative", "iadd:fresh-reaction",
     "gene_reaction_rule:new-genes", "add_reactions:new-mets-new-genes", "remove_reactions:objective-reaction",
     "remove_reactions:remove_orphans", "remove_metabolites", "remove_metabolites:destructive", "add_boundary:demand",
-    "add_cons_vars", "remove_cons_vars:mass-balance", "remove_genes", "rename_genes:new-id", "medium", "merge:sum",
-    "solver:glpk_exact", "add_pfba", "add_moma", "fix_objective_as_constraint", "add_metabolites:valid-then-unknown-id",
-    "bounds:lb>ub",
+    "add_cons_vars", "remove_cons_vars:variable+constraint", "remove_genes", "rename_genes:new-id", "medium", "merge:sum",
+    "solver:glpk_exact", "add_pfba", "fix_objective_as_constraint", "bounds:lb>ub",
 ]
 
 
@@ -184,21 +193,35 @@ def _work(chunk):
     global _RUNNER
     if _RUNNER is None:
         _RUNNER = C.Runner()
-    out = {"n": 0, "nontrivial": [], "failures": [], "raised": 0, "by_family": {}, "shrink_exec": 0, "invalid": 0}
+    out = {"n": 0, "nontrivial": 0, "failures": [], "raised": 0, "by_family": {}, "shrink_exec": 0, "invalid": 0,
+           "unjudged": 0, "failing": 0}
     e0 = _RUNNER.executions
+    agg = {}
     for idx, fam, case in chunk:
         res, found = _RUNNER.analyse(case)
-        out["n"] += 1
-        out["by_family"][fam] = out["by_family"].get(fam, 0) + 1
         if res.get("invalid"):
             out["invalid"] += 1
+            continue
+        out["n"] += 1
+        out["by_family"][fam] = out["by_family"].get(fam, 0) + 1
+        out["unjudged"] += res.get("unjudged_blocks", 0)
         if res["nontrivial"]:
-            out["nontrivial"].append(idx)
+            out["nontrivial"] += 1
         if any(t != "ok" for t in res["trace"]):
             out["raised"] += 1
-        for key, core, text in found:
-            out["failures"].append((key, core, text))
-    out["shrink_exec"] = _RUNNER.executions - e0 - out["n"]
+        if res["failure"]:
+            out["failing"] += 1
+        for rendering, core, text, why in found:
+            cj = json.dumps(core, sort_keys=True)
+            k = (rendering, why)
+            cand = (len(cj), cj, text)
+            if k not in agg:
+                agg[k] = [cand, 0]
+            agg[k][1] += 1
+            if cand < agg[k][0]:
+                agg[k][0] = cand
+    out["failures"] = [(k[0], json.loads(v[0][1]), v[0][2], k[1], v[1]) for k, v in agg.items()]
+    out["shrink_exec"] = _RUNNER.executions - e0 - out["n"] - out["invalid"]
     return out
 
 
@@ -253,22 +276,50 @@ def _probe_single(case, timeout=30.0):
         return "no result from the child process"
 
 
-# known defects: (defect key, regular expression matched against the whole key of the minimal history)
-# One defect -> one key.  A minimal history that matches no pattern keeps its own rendering as key.
-DEFECTS = []
+def _group(found):
+    """found: [(rendering of the minimal history, minimal case, failure text, explaining repairs | None, count)]
+    -> failures.  One defect -> one key: a minimal history that passes under exactly one candidate repair of
+    bcc.context_c03.REPAIRS is a witness of that defect; one that needs several repairs is counted with each of them
+    (and gets a key of its own only if one of them has no witness of its own in this run); one that no repair explains
+    keeps its rendering as key."""
+    single, multi, unknown = {}, [], {}
+
+    def put(table, key, core, rendering, text, n):
+        cj = json.dumps(core, sort_keys=True)
+        cand = (len(C.ops_of(core["prog"])), C.depth_of(core["prog"]), len(cj), cj, rendering, text)
+        g = table.setdefault(key, {"best": cand, "count": 0, "cores": set(), "also": 0})
+        g["count"] += n
+        g["cores"].add(rendering)
+        if cand < g["best"]:
+            g["best"] = cand
+    for rendering, core, text, why, n in found:
+        if why is None:
+            put(unknown, rendering, core, rendering, text, n)
+        elif len(why) == 1:
+            put(single, why[0], core, rendering, text, n)
+        else:
+            multi.append((rendering, core, text, why, n))
+    for rendering, core, text, why, n in multi:
+        if all(k in single for k in why):
+            for k in why:
+                single[k]["also"] += n
+        else:
+            put(single, "+".join(why), core, rendering, text, n)
+    failures = []
+    for table in (single, unknown):
+        for key in sorted(table):
+            g = table[key]
+            cj, rendering, text = g["best"][3], g["best"][4], g["best"][5]
+            extra = f"; {g['also']} more need this and another repair" if g["also"] else ""
+            failures.append({"key": key,
+                             "failure": f"{text}  [minimal history {rendering}; {g['count']} failing histories reduce to "
+                                        f"{len(g['cores'])} distinct minimal histories of this defect{extra}]",
+                             "replay": json.loads(cj)})
+    return failures
 
 
-def defect_key(auto_key):
-    for dk, pat in DEFECTS:
-        if re.fullmatch(pat, auto_key):
-            return dk
-    return auto_key
-
-
-def run(tier: str, seed: int) -> dict:
-    t0 = time.time()
-    cases = _cases(tier, seed)
-    # distinct cases only
+def _evaluate(cases, tier="quick"):
+    """cases: [(family, case)] -> (statistics, failures)"""
     seen, uniq = set(), []
     for fam, case in cases:
         h = json.dumps(case, sort_keys=True)
@@ -281,30 +332,11 @@ def run(tier: str, seed: int) -> dict:
     chunks = [indexed[i::nchunks] for i in range(nchunks)]
     chunks = [c for c in chunks if c]
     results, lost = _pool_map(chunks)
-    evaluations = sum(r["n"] for r in results)
-    nontrivial = sum(len(r["nontrivial"]) for r in results)
     by_family = {}
     for r in results:
         for k, v in r["by_family"].items():
             by_family[k] = by_family.get(k, 0) + v
-    grouped = {}
-    for r in results:
-        for key, core, text in r["failures"]:
-            dk = defect_key(key)
-            cand = (len(json.dumps(core, sort_keys=True)), json.dumps(core, sort_keys=True), key, text)
-            g = grouped.setdefault(dk, {"best": cand, "count": 0, "cores": set()})
-            g["count"] += 1
-            g["cores"].add(key)
-            if cand < g["best"]:
-                g["best"] = cand
-    failures = []
-    for dk in sorted(grouped):
-        g = grouped[dk]
-        _, core_json, key, text = g["best"]
-        failures.append({"key": dk,
-                         "failure": f"{text}  [minimal history {key}; {g['count']} failing histories, "
-                                    f"{len(g['cores'])} distinct minimal histories]",
-                         "replay": json.loads(core_json)})
+    failures = _group([f for r in results for f in r["failures"]])
     for i, why in lost:
         # pin the case down
         pinned = False
@@ -317,24 +349,47 @@ def run(tier: str, seed: int) -> dict:
         if not pinned:
             failures.append({"key": "harness:lost-chunk", "failure": f"chunk {i}: {why}; not reproduced case by case",
                              "replay": {"chunk": i}})
-    samples = [uniq[i][1] for i in (0, len(uniq) // 2, len(uniq) - 1)] if uniq else []
+    stats = {"evaluations": sum(r["n"] for r in results), "nontrivial": sum(r["nontrivial"] for r in results),
+             "by_family": by_family, "raised": sum(r["raised"] for r in results),
+             "shrink_exec": sum(r["shrink_exec"] for r in results), "failing": sum(r["failing"] for r in results),
+             "invalid": sum(r["invalid"] for r in results), "unjudged": sum(r["unjudged"] for r in results),
+             "samples": [uniq[i][1] for i in (0, len(uniq) // 2, len(uniq) - 1)] if uniq else []}
+    return stats, failures
+
+
+def run(tier: str, seed: int) -> dict:
+    import resource
+    t0 = time.time()
+    cpu0 = resource.getrusage(resource.RUSAGE_CHILDREN)
+    st, failures = _evaluate(_cases(tier, seed), tier)
+    cpu1 = resource.getrusage(resource.RUSAGE_CHILDREN)
     return {
-        "evaluations": evaluations,
-        "distinct_nontrivial": nontrivial,
+        "evaluations": st["evaluations"],
+        "distinct_nontrivial": st["nontrivial"],
         "rule": "a case = (model recipe, nested-with program over the operation alphabet of bcc.context_c03); all cases are "
                 "distinct as JSON; non-trivial = in at least one block the model state just before __exit__ differed from "
-                "the state at entry (there was something to restore). depth1/depth2(/depth3) families are exhaustive over "
-                "the stated alphabets and shapes, 'random' are seeded histories of 2-5 operations in up to 3 nested blocks",
-        "bounds": {"tier": tier, "seed": seed, "by_family": by_family,
-                   "models": "5 reactions / 3-4 metabolites / 3 genes (toy, chain variants) + random 2-3 x 2-6",
-                   "alphabet": {n: [len(x) for x in _alphabet(RECIPES[n])] for n in ("toy", "chain")},
-                   "nesting": "1-3", "history_depth": "1-2 exhaustive (3 in thorough, reduced alphabet), <=5 random",
-                   "cases_with_a_raising_operation": sum(r["raised"] for r in results),
-                   "extra_executions_for_shrinking": sum(r["shrink_exec"] for r in results),
-                   "invalid_recipes": sum(r["invalid"] for r in results),
-                   "seconds": round(time.time() - t0, 1)},
+                "the state at entry (there was something to restore). The depth1/depth2(/depth3) families are exhaustive "
+                "over the stated alphabets and shapes, 'random' are seeded histories of 2-5 operations in up to 3 nested "
+                "blocks. Histories that give two solver objects one name are discarded (not counted)",
+        "bounds": {"tier": tier, "seed": seed, "by_family": st["by_family"],
+                   "models": "toy (5 reactions, 4 metabolites, 3 genes, 2 compartments) and variants (min direction, two "
+                             "objective terms, forced flux, group, pre-existing fixed-objective constraint / knocked-out "
+                             "gene / user variable+constraint), linear chain with cycle (5x3x3), reversed exchange, "
+                             "random 2-3 metabolites x 2-6 reactions",
+                   "alphabet_full_and_core": {n: [len(x) for x in _alphabet(RECIPES[n])] for n in ("toy", "chain")},
+                   "nesting": "1-3 blocks", "exit": "normal | sentinel exception | natural exception, propagating or caught",
+                   "history_depth": "1 (full alphabet, 8 shapes), 2 (core alphabet; thorough: full), "
+                                    "3 (thorough, reduced alphabet), 2-5 random",
+                   "cases_with_a_raising_operation": st["raised"],
+                   "failing_histories": st["failing"],
+                   "extra_executions_for_shrinking": st["shrink_exec"],
+                   "discarded_histories_with_two_solver_objects_of_one_name": st["invalid"],
+                   "blocks_entered_with_broken_cross_references_not_compared": st["unjudged"],
+                   "seconds": round(time.time() - t0, 1),
+                   "cpu_seconds_of_workers": round(sum(getattr(cpu1, f) - getattr(cpu0, f)
+                                                       for f in ("ru_utime", "ru_stime")), 1)},
         "exhaustive": False,
-        "samples": samples,
+        "samples": st["samples"],
         "failures": failures,
     }
 
